@@ -90,7 +90,8 @@ var readOnlyArg = map[string]map[int]bool{
 	"(net.Conn).Close": {},
 }
 
-var connWriteMethods = map[string]bool{"Write": true, "ReadFrom": true, "WriteString": true, "WriteTo": false}
+// CloseWrite / CloseRead / SetLinger (reached through a type assertion on the connection) change what the peer sees (FIN, RST) just like a write
+var connWriteMethods = map[string]bool{"Write": true, "ReadFrom": true, "WriteString": true, "WriteTo": false, "CloseWrite": true, "CloseRead": true, "SetLinger": true}
 
 type ioSite struct {
 	Instr ssa.CallInstruction
